@@ -108,6 +108,8 @@ impl ChunkData {
             // Initialize memory with garbage in tests to catch bugs.
             data.fill(MaybeUninit::new(0x17));
         }
+        #[cfg(starlark_verif)]
+        crate::verif::global_emit("chunk_alloc", ptr.as_ptr() as usize as i64, len.bytes() as i64, 0);
         ptr
     }
 
@@ -225,12 +227,20 @@ impl Drop for Chunk {
             return;
         }
 
+        #[cfg(starlark_verif)]
+        let verif_ptr = self.ptr.as_ptr() as usize as i64;
+        #[cfg(starlark_verif)]
+        crate::verif::global_emit("chunk_dec_begin", verif_ptr, 0, 0);
         unsafe {
             if self.data().ref_count.fetch_sub(1, atomic::Ordering::SeqCst) == 1 {
+                #[cfg(starlark_verif)]
+                crate::verif::global_emit("chunk_free", self.ptr.as_ptr() as usize as i64, 0, 0);
                 let layout = ChunkData::layout_for_len(self.data().len);
                 alloc::dealloc(self.ptr.as_ptr() as *mut u8, layout);
             }
         }
+        #[cfg(starlark_verif)]
+        crate::verif::global_emit("chunk_dec_end", verif_ptr, 0, 0);
     }
 }
 
@@ -246,6 +256,8 @@ impl Clone for Chunk {
             rtabort!("Refcount overflow")
         }
 
+        #[cfg(starlark_verif)]
+        crate::verif::global_emit("chunk_inc_begin", self.ptr.as_ptr() as usize as i64, 0, 0);
         let prev = self
             .data()
             .ref_count
@@ -253,6 +265,13 @@ impl Clone for Chunk {
         if prev > i32::MAX as u32 {
             counter_overflow();
         }
+        #[cfg(starlark_verif)]
+        crate::verif::global_emit(
+            "chunk_inc_end",
+            self.ptr.as_ptr() as usize as i64,
+            prev as i64,
+            0,
+        );
         Chunk { ptr: self.ptr }
     }
 }
